@@ -101,12 +101,15 @@ pub fn gen_scenario(seed: u64, fixtures: &[String]) -> Scenario {
         docs.push(d);
     }
     // ---- scripts
-    let nthreads = 1 + rng.weighted(&[1, 5, 3, 2]);
+    // mostly 1-4 threads; sometimes a crowd (more threads than any small fixed table of
+    // per-thread slots), each with a single call
+    let crowd = !flat_mode && rng.chance(0.02);
+    let nthreads = if crowd { rng.range(9, 12) } else { 1 + rng.weighted(&[1, 5, 3, 2]) };
     let hot_doc = rng.below(ndocs);
     let hot_cfg = gen_cfg(&mut rng);
     let mut threads: Vec<Vec<Call>> = Vec::new();
     for _ in 0..nthreads {
-        let ncalls = if flat_mode { rng.range(1, 2) } else { rng.range(1, 6) };
+        let ncalls = if flat_mode { rng.range(1, 2) } else if crowd { 1 } else { rng.range(1, 6) };
         let mut script: Vec<Call> = Vec::new();
         while script.len() < ncalls {
             let doc = if rng.chance(0.6) { hot_doc } else { rng.below(ndocs) };
